@@ -8,7 +8,6 @@ import Qryn.TraceQL.Ast
     aggregator.go, index_limit.go, traces_data.go, complex_and.go, complex_or.go, shared.go.
     Raw SQL text the Go code writes as one string is given structure here where the semantics need it
     (`any(duration)` is `.call "any" [.raw "duration"]`); the rendering is byte-equal (text tie of C11). -/
-
 namespace Qryn.TraceQL
 open Qryn Qryn.Sql
 
@@ -467,12 +466,12 @@ def planTags (c : Ctx) (script : Script) : PlanM Sel := do
   | none => throw "nil pointer dereference (no conditions)"
   | some m => pure (tagsOrder c "key" (selectTags c "key" m))
 
-/-- `PlanValuesV2(script, key).Process(ctx)`; `fromDate`/`toDate` are `FormatFromDate` of ctx.From / ctx.To (UTC, − 30 min) -/
+/-- `PlanValuesV2(script, key).Process(ctx)`; the lower date bound is `FormatFromDate(ctx.From)` (UTC, − 30 min), the upper one the UTC day of ctx.To -/
 def planValues (c : Ctx) (kvTable : String) (key : Bytes) (script : Script) : PlanM Sel := do
   match ← tagsMain c script with
   | none =>
     pure (.mk [] true [simpleCol "val" "val"] (some (.raw kvTable)) [] none
-      (some (and_ [ge (.raw "date") (.str (Time.formatFromDate c.fromNs)), le (.raw "date") (.str (Time.formatFromDate c.toNs)),
+      (some (and_ [ge (.raw "date") (.str (Time.formatFromDate c.fromNs)), le (.raw "date") (.str (Time.formatDate (Int.fdiv c.toNs 1000000000))),
         eq (.raw "key") (.str key)])) [] none [] none)
   | some m =>
     let t := tagsOrder c "key" (selectTags c "key" m)
